@@ -79,7 +79,16 @@ def check(ctx, args):
             if s["mode"] in ("term", "int") and incs[0]["lock_after"]:
                 fail("lock_left_after_handled_signal", "mrp exited on %s but _lock is still there" % s["mode"])
         last = incs[-1]
-        if last["exit"] != 0:
+        import re
+        init_rx = r"(open \S*/_(mrosource|invocation|versions|tags|uuid|timestamp|jobmode): no such file|ParseError: [^\n]* at \S*/_mrosource|unexpected end of JSON input|is not a pipestance directory)"
+        if last["exit"] != 0 and incs[0]["events"] == 0 and s["mode"] in ("kill", "killgroup") and re.search(init_rx, last["tail"]):
+            fail("killed_during_pipestance_initialisation", "mrp was killed while writing the top-level metadata files; the restart refuses the half-initialised directory")
+        elif last.get("timed_out") and r.get("stuck") and all(j["pid"] == 0 for j in r["stuck"]) \
+                and s["mode"] == "killgroup":
+            rep["stuck"] = r["stuck"]
+            fail("job_killed_before_monitor_recorded_pid", "the restart waits for %s, killed together with mrp before mrjob had written its pid into _jobinfo" % ", ".join(j["id"] for j in r["stuck"]))
+        elif last["exit"] != 0:
+            rep["stuck"] = r.get("stuck")
             fail("restart_does_not_complete", "after the interruption the restarts end with exit %d" % last["exit"])
         elif r.get("outs") != pipelib.clean_outs(s["dir"]):
             fail("outs_differ_from_uninterrupted_run", "final outs differ from those of the uninterrupted run")
